@@ -755,6 +755,8 @@ class Evaluator(object):
                     return et
                 if self.block_diverges(node['else']) and tt[0] != 'ctl':
                     return tt
+                if extra is None and c is not None and tt[0] != 'ctl' and et[0] != 'ctl':
+                    return cond_value(c, tt, et)  # a conditional *value*: one spelling whatever the source form
             return ('ctl', s)
         if k == 'LetExpr':
             v = self.eval(node['init'], env, guards, fn, chain)
@@ -812,6 +814,13 @@ class Evaluator(object):
             red = self.reduce_result_match(node, sc, arm_info, guards, fn, chain)
             if red is not None:
                 return red
+            if len(arm_info) == 2 and all(a.get('guard') is None for a in node['arms']) and arm_info[0][2][0] != 'ctl' and arm_info[1][2][0] != 'ctl' \
+                    and not self.block_diverges(node['arms'][0]['body']) and not self.block_diverges(node['arms'][1]['body']):
+                p0, p1 = node['arms'][0]['pat'], node['arms'][1]['pat']
+                if p0.get('k') == 'PLit' and (p1.get('k') in ('Wild',) or (p1.get('k') == 'Bind' and not p1.get('sub'))):
+                    # match x { LIT => a, other => b }: the conditional value `if x == LIT {a} else {b}` (other is x)
+                    lit = ('lit', H.lit_str(p0['v']))
+                    return cond_value(('bin', '==', sc, lit), arm_info[0][2], arm_info[1][2])
             # a match whose other arms all diverge evaluates to its one live arm
             if len(live_vals) == 1 and live_vals[0][0] != 'ctl':
                 return live_vals[0]
@@ -1121,6 +1130,16 @@ def widening(src, dst):
 def closure_node(n):
     n = H.peel(n) if isinstance(n, dict) else n
     return n if isinstance(n, dict) and n.get('k') == 'Closure' else None
+
+
+def cond_value(c, a, b):
+    """Canonical term of `if c {a} else {b}` used as a value: the condition in its canonical spelling, and a negative
+    condition flipped into the positive one."""
+    import canon
+    cs = canon.bstr(c, True)
+    if cs.startswith('!') and not cs.startswith('!('):
+        cs, a, b = canon.bstr(c, False), b, a
+    return ('ctl', 'if %s {%s} else {%s}' % (cs, show(a), show(b)))
 
 
 def iter_view(itt):
